@@ -1,13 +1,13 @@
 SPECIFICATION Spec
 CONSTANTS
-  WL <- WL_diamond
-  Cfg <- Cfg_multi
+  WL <- WL_chain
+  Cfg <- Cfg_long
   MaxTick = 3
   MaxAsg = 1
   MaxOps = 3
   CpuChoices = {1,2}
-  RamChoices = {1,3}
-  PoolChoices = {1,2}
+  RamChoices = {1,2,3}
+  PoolChoices = {1,2,3}
   CollapseCrash = TRUE
   Admissible = FALSE
 INVARIANT C01_ParentsDone
